@@ -8,6 +8,7 @@ mod exec;
 mod imemregs;
 mod iqlcd;
 mod kbd;
+mod loopdet;
 mod tables;
 mod lcd;
 mod lcdtext;
@@ -30,6 +31,7 @@ pub struct Ctx {
     pub imem: imemregs::ImemCtx,
     pub lcdtext: lcdtext::LcdTextCtx,
     pub iqlcd: iqlcd::IqLcdCtx,
+    pub loopdet: loopdet::LoopCtx,
 }
 
 fn dispatch(ctx: &mut Ctx, req: &Value) -> Result<Value, String> {
@@ -40,6 +42,7 @@ fn dispatch(ctx: &mut Ctx, req: &Value) -> Result<Value, String> {
         c if c.starts_with("timer.") => timer::handle(&mut ctx.timer, c, req),
         c if c.starts_with("rt.") => rt::handle(&mut ctx.rt, c, req),
         c if c.starts_with("driver.") => driver::handle(&mut ctx.driver, c, req),
+        c if c.starts_with("loopdet.") => loopdet::handle(&mut ctx.loopdet, c, req),
         c if c.starts_with("lcdtext.") => lcdtext::handle(&mut ctx.lcdtext, c, req),
         c if c.starts_with("iqlcd.") => iqlcd::handle(&mut ctx.iqlcd, c, req),
         c if c.starts_with("lcd.") => lcd::handle(&mut ctx.lcd, c, req),
@@ -57,7 +60,7 @@ fn main() {
     let stdin = io::stdin();
     let stdout = io::stdout();
     let mut out = io::BufWriter::new(stdout.lock());
-    let mut ctx = Ctx { regs: regs::RegsCtx::default(), timer: timer::TimerCtx::default(), rt: rt::RtCtx::default(), driver: driver::DriverCtx::default(), lcd: lcd::LcdCtx::default(), exec: exec::ExecCtx::default(), kbd: kbd::KbdCtx::default(), mem: mem::MemCtx::default(), rom: romload::RomCtx::default(), imem: imemregs::ImemCtx::default(), lcdtext: lcdtext::LcdTextCtx::default(), iqlcd: iqlcd::IqLcdCtx::default() };
+    let mut ctx = Ctx { regs: regs::RegsCtx::default(), timer: timer::TimerCtx::default(), rt: rt::RtCtx::default(), driver: driver::DriverCtx::default(), lcd: lcd::LcdCtx::default(), exec: exec::ExecCtx::default(), kbd: kbd::KbdCtx::default(), mem: mem::MemCtx::default(), rom: romload::RomCtx::default(), imem: imemregs::ImemCtx::default(), lcdtext: lcdtext::LcdTextCtx::default(), iqlcd: iqlcd::IqLcdCtx::default(), loopdet: loopdet::LoopCtx::default() };
     for line in stdin.lock().lines() {
         let line = match line {
             Ok(l) => l,
